@@ -238,10 +238,11 @@ Proof.
 Qed.
 Theorem fcall_wf l o : fcall_ok o = true -> wf_prog (prog_of_fcall l o) = true.
 Proof.
-  intros H. destruct o as [th tr|t th k|]; cbn [prog_of_fcall fcall_ok] in *.
+  intros H. destruct o as [th tr|t th k|k|]; cbn [prog_of_fcall fcall_ok] in *.
   - apply wf_appends_trace. exact H.
   - apply (wf_prog_app [MTarget (nth_thread l th); MRead]); [reflexivity|].
     destruct k as [k|]; [apply wf_fail_at_lineage; exact H|apply wf_lineage; exact H].
+  - destruct k as [k|]; [apply wf_fail_at_create|apply wf_create].
   - reflexivity.
 Qed.
 
@@ -288,3 +289,21 @@ Lemma w_reserve_invalid :
   /\ map seq (cstream 0 (s_log (run (repeat 0 37) (spawn w_reserve_actors empty_state)))) = [0; 1; 3; 4]
   /\ validate (s_log (run (repeat 0 37) (spawn w_reserve_actors empty_state))) = false.
 Proof. repeat split; vm_compute; reflexivity. Qed.
+
+(* ================= C. the session emitter ================= *)
+Lemma emit_unchecked_all_ok sid : forall ts cnt,
+  emit_unchecked sid cnt (map (fun t => (t, true)) ts) = run_frames sid cnt (unit_sites ts).
+Proof.
+  induction ts as [|t r IH]; intros cnt; [reflexivity|].
+  cbn [map emit_unchecked unit_sites run_frames app]. fold (unit_sites r). rewrite IH. reflexivity.
+Qed.
+Theorem emit_unchecked_valid sid ts :
+  forallb is_sess ts = true -> Valid (emit_unchecked sid 0 (map (fun t => (t, true)) ts)).
+Proof.
+  intros H. rewrite emit_unchecked_all_ok. apply run_counter_valid; [rewrite unit_sites_fst; exact H|apply unit_sites_one].
+Qed.
+(* one refused write in the middle of a run: the log has a hole *)
+Definition w_refused_run : list (etype * bool) := [(ESessionStarted, true); (EOutputTextDelta, false); (ESessionEnded, true)].
+Lemma w_refused_invalid :
+  validate (emit_unchecked 7 0 w_refused_run) = false /\ map seq (emit_unchecked 7 0 w_refused_run) = [0; 2].
+Proof. split; vm_compute; reflexivity. Qed.
